@@ -214,6 +214,22 @@ fn explore(ctx: &mut Ctx) {
         }
     }
     ctx.exhaustive_part("4 long strings (9..=31 chars, 17..=70 bytes, all UTF-8 widths) x every index 0..=len+2, usize::MAX x all pairs");
+    // one string longer than 2^16 bytes: indices around 2^8, 2^15, 2^16 and the length (offsets narrowed to u8 / u16 /
+    // i16 somewhere would show here), each alone and in pairs
+    {
+        let unit = "ab\u{e9}\u{4e2a}\u{1f600}c"; // 1+1+2+3+4+1 = 12 bytes
+        let s: String = unit.repeat(70_000 / 12 + 1);
+        let len = s.len();
+        let mut idx = vec![0usize, 1, 11, 12, 13, 255, 256, 257, 258, 32_766, 32_767, 32_768, 32_769, 65_534, 65_535, 65_536, 65_537, 65_538, len - 2, len - 1, len, len + 1, usize::MAX];
+        idx.extend(gen::congruent(len).into_iter().filter(|&i| i > len));
+        for &a in &idx {
+            eval(ctx, Case { s: s.clone(), a, b: None });
+            for &b in &idx {
+                eval(ctx, Case { s: s.clone(), a, b: Some(b) });
+            }
+        }
+        ctx.exhaustive_part(&format!("one string of {len} bytes (all UTF-8 widths) x {} indices around 2^8, 2^15, 2^16, the length and values congruent to small indices modulo 2^k, alone and in pairs", idx.len()));
+    }
     // random: longer strings over a wider alphabet
     let n = ctx.by_tier(100_000, 2_000_000);
     let ch = prop_oneof![
